@@ -27,6 +27,7 @@ type Global struct {
 	modsets   map[*ssa.Function]map[string]modInfo
 	modBusy   map[*ssa.Function]bool
 	busyHits  int
+	heapKinds map[string]string
 	repo      string
 	fnIDs     map[*ssa.Function]int
 }
